@@ -64,6 +64,16 @@ class Z3Export:
             self.cons.append(v >= 0)
             self.cons.append(v * v == ur)
             r = (v, zero)
+        elif k == "Cl":
+            ur, _ui = self.poly(at.args[0])
+            v = ur
+            if at.args[1] is not None:
+                lo = z3.RealVal(str(at.args[1]))
+                v = z3.If(v < lo, lo, v)
+            if at.args[2] is not None:
+                hi = z3.RealVal(str(at.args[2]))
+                v = z3.If(v > hi, hi, v)
+            r = (v, zero)
         elif k == "Abs":
             v = self.fresh("Abs")
             ur, _ui = self.poly(at.args[0])
